@@ -10,7 +10,12 @@
 //     package is loaded too and its functions are scanned for map ranges / maps.* calls;
 //
 // together with the enclosing function, the expression as written and its type / callee, and
-// writes them as a Gallina list (MapRangeGen.v).
+// writes them as a Gallina list (MapRangeGen.v, gen_map_ranges).
+//
+// A second list, gen_pkg_state, has every package-level `var` of those packages whose type can
+// hold state that outlives one generation (anything but a basic type or string: maps, slices,
+// pointers, sync.Map, mutexes, structs, interfaces, funcs): process-wide state through which
+// one generation could influence the next one in the same process.
 // The committed tie coq/ties/Tie_C14.v states that this list is exactly the set of map ranges
 // the GenDet model accounts for; a new map range in a generator breaks the tie even when the
 // outputs of the sampled definitions happen to agree.
@@ -200,6 +205,53 @@ func main() {
 			}
 		}
 	}
+	// package-level variables that can carry state
+	type vrow struct{ pkg, file, name, typ string }
+	var vrows []vrow
+	for _, p := range loaded {
+		if isHelper(p.PkgPath) {
+			continue
+		}
+		short := p.PkgPath
+		if k := strings.Index(short, "/gtools/"); k >= 0 {
+			short = short[k+len("/gtools/"):]
+		}
+		for i, f := range p.Syntax {
+			file := filepath.Base(p.CompiledGoFiles[i])
+			if strings.HasSuffix(file, "_test.go") {
+				continue
+			}
+			for _, decl := range f.Decls {
+				gd, ok := decl.(*ast.GenDecl)
+				if !ok || gd.Tok.String() != "var" {
+					continue
+				}
+				for _, sp := range gd.Specs {
+					vs := sp.(*ast.ValueSpec)
+					for _, id := range vs.Names {
+						obj, ok := p.TypesInfo.Defs[id].(*types.Var)
+						if !ok || id.Name == "_" {
+							continue
+						}
+						if _, basic := obj.Type().Underlying().(*types.Basic); basic {
+							continue
+						}
+						vrows = append(vrows, vrow{short, file, id.Name,
+							types.TypeString(obj.Type(), func(q *types.Package) string { return q.Name() })})
+					}
+				}
+			}
+		}
+	}
+	sort.SliceStable(vrows, func(i, j int) bool {
+		if vrows[i].pkg != vrows[j].pkg {
+			return vrows[i].pkg < vrows[j].pkg
+		}
+		if vrows[i].file != vrows[j].file {
+			return vrows[i].file < vrows[j].file
+		}
+		return vrows[i].name < vrows[j].name
+	})
 	sort.SliceStable(rows, func(i, j int) bool {
 		if rows[i].pkg != rows[j].pkg {
 			return rows[i].pkg < rows[j].pkg
@@ -223,6 +275,15 @@ func main() {
 			sep = ""
 		}
 		fmt.Fprintf(&b, "  (%s, %s, %s, %s, %s)%s\n", gstr(r.pkg), gstr(r.file), gstr(r.fn), gstr(r.expr), gstr(r.typ), sep)
+	}
+	b.WriteString("].\n\n(* package-level variables of a non-basic type: (package, file, name, type) *)\n")
+	b.WriteString("Definition gen_pkg_state : list (string * string * string * string) := [\n")
+	for i, r := range vrows {
+		sep := ";"
+		if i == len(vrows)-1 {
+			sep = ""
+		}
+		fmt.Fprintf(&b, "  (%s, %s, %s, %s)%s\n", gstr(r.pkg), gstr(r.file), gstr(r.name), gstr(r.typ), sep)
 	}
 	b.WriteString("].\n")
 	if err := os.WriteFile(*out, []byte(b.String()), 0o644); err != nil {
